@@ -1075,6 +1075,11 @@ func (b *BaseStore) storeListener(topic iface.PubSubTopic) error {
 func (b *BaseStore) handleEventWrite(ctx context.Context, e *stores.EventWrite, topic iface.PubSubTopic) error {
 	b.logger.Debug("received stores.write event")
 
+	// the event bus is shared by every store of the instance: only announce our own writes
+	if e.Address == nil || e.Address.String() != b.id {
+		return nil
+	}
+
 	if len(e.Heads) == 0 {
 		return fmt.Errorf("'heads' are not defined")
 	}
